@@ -46,3 +46,30 @@ Check (eq_refl : @cost R _ = fun cons previous a =>
   if Reqb (weight cons) 0 then calculate_distance a previous
   else (if Reqb (weight cons) 1 then 0 else calculate_distance a previous) * (1 - weight cons)
        + calculate_distance a (centers cons) * weight cons).
+
+(** ** previous first.  If the previous joints (within +-2 pi, within the limits) realise the pose and the configuration is
+    not singular (shoulder, elbow/reach, wrist), they are the FIRST answer of [inverse_continuing] when sorting is by
+    distance to previous (BY_PREV / no constraints: weight 0).  Concrete kernel: finishing glue over the generated table;
+    rests on the completeness theorem of C02.  So a trajectory followed step by step never switches branch. *)
+From VF Require Import Base.Lin Gen.Forward Gen.Inverse Proofs.ForwardP Proofs.SoundP Proofs.CompleteP Proofs.CompleteK Proofs.FirstP Proofs.FirstK.
+
+Theorem C04_previous_first : forall (p : Params) (j : J6) (thr : R) (compare : Iso -> Iso -> bool),
+  (forall a, compare a a = true) ->
+  (p_sg1 p = 1 \/ p_sg1 p = -1)%Z /\ (p_sg2 p = 1 \/ p_sg2 p = -1)%Z /\ (p_sg3 p = 1 \/ p_sg3 p = -1)%Z /\
+  (p_sg4 p = 1 \/ p_sg4 p = -1)%Z /\ (p_sg5 p = 1 \/ p_sg5 p = -1)%Z /\ (p_sg6 p = 1 \/ p_sg6 p = -1)%Z ->
+  let q := qint p j in
+  0 < p_a2 p * p_a2 p + p_c3 p * p_c3 p -> p_c2 p <> 0 ->
+  0 < aX (p_a2 p) (p_c2 p) (p_c3 p) (j2 q) (j3 q) * aX (p_a2 p) (p_c2 p) (p_c3 p) (j2 q) (j3 q) +
+      aZ (p_a2 p) (p_c2 p) (p_c3 p) (j2 q) (j3 q) * aZ (p_a2 p) (p_c2 p) (p_c3 p) (j2 q) (j3 q) ->
+  aX (p_a2 p) (p_c2 p) (p_c3 p) (j2 q) (j3 q) + p_a1 p <> 0 ->
+  sin (j5 q) <> 0 ->
+  forall (dof : Z) (cons : option (@Constraints R)) (kernel5 : Iso -> R -> list (list R))
+         (shift : Iso -> nat -> Iso), (forall pose, shift pose 0%nat = pose) ->
+  forall (fk_ok : Iso -> list R -> bool) (sgl offl : list R),
+  let jl := [j1 j; j2 j; j3 j; j4 j; j5 j; j6 j] in
+  dof <> 5%Z -> weight cons = 0 -> compliant_opt PI cons jl = true -> Forall (fun x => Rabs x <= 2 * PI) jl ->
+  hd_error (inverse_continuing PI thr sgl offl dof cons Iso (the_kernel p compare (ik_theta_def p)) kernel5 shift fk_ok (fwd p j) false jl) = Some jl.
+Proof.
+  intros p j thr compare Hr Hsg q Hk Hc HS Hx H5 dof cons k5 shift Hs0 fk sgl offl jl Hd Hw Hcomp Hrange.
+  exact (previous_first_concrete p j thr compare Hr Hsg Hk Hc HS Hx H5 dof cons k5 shift Hs0 fk sgl offl Hd Hw Hcomp Hrange).
+Qed.
